@@ -2023,6 +2023,10 @@ export class ObjectRuntype extends BaseRuntype {
         optionalized.add(k);
       } else {
         properties[k] = raw;
+        if (item instanceof OptionalFieldRuntype) {
+          // e.g. `a?: null`: nothing to strip from the schema, but the property is still optional
+          optionalized.add(k);
+        }
       }
       popPath(ctx);
     }
